@@ -16,7 +16,9 @@ import (
 	"github.com/mmcloughlin/addchain/acc/eval"
 	"github.com/mmcloughlin/addchain/acc/ir"
 	"github.com/mmcloughlin/addchain/acc/parse"
+	"github.com/mmcloughlin/addchain/acc/ast"
 	"github.com/mmcloughlin/addchain/acc/pass"
+	"verif/harness/acclib"
 	"verif/harness/lib"
 )
 
@@ -369,6 +371,8 @@ func Run(c string) string {
 		return runHistory(f)
 	case "multi":
 		return runMulti(f)
+	case "salloc":
+		return runSalloc(f)
 	}
 	panic("unknown case " + c)
 }
@@ -711,6 +715,193 @@ func CheckMulti(c, res string) string {
 		}
 	}
 	return ""
+}
+
+// ---------------------------------------------------------------- scripts through the whole pipeline
+
+// SallocCase builds a script-level case: parse, Translate, Allocator, interpreter.
+func SallocCase(script string, c Cfg) string {
+	return "salloc " + lib.Bytes([]byte(script)) + " " + encCfg(c)
+}
+
+func runSalloc(f []string) string {
+	src := string(lib.ParseBytes(f[1]))
+	cfg := decCfg(f[2])
+	ch, err := parse.String(src)
+	if err != nil {
+		return "err parse"
+	}
+	r, err := acc.Translate(ch)
+	if err != nil {
+		return "err " + acclib.ErrClass(err)
+	}
+	if err := (pass.Allocator{Input: cfg.In, Output: cfg.Out, Format: cfg.Format}).Execute(r); err != nil {
+		return "err " + allocErrClass(err)
+	}
+	return "ok " + Encode(FromIR(r)) + " " + encNames(r.Temporaries) + " " + interpOut(r, cfg, false) + " " + interpOut(r, cfg, true)
+}
+
+// bareOperand: the expression denotes an existing element through a fresh, unnamed operand object
+// (a literal 1, an index [k], or one of those shifted by zero).
+func bareOperand(e ast.Expr) bool {
+	switch e := e.(type) {
+	case ast.Operand:
+		return true
+	case ast.Shift:
+		return e.S == 0 && bareOperand(e.X)
+	}
+	return false
+}
+
+// CheckSalloc: a script that loads (by the independent in-order semantics acclib.Interp), has at
+// least one instruction, and in which no named statement binds a bare operand, must allocate without
+// error and satisfy every clause of C05; the output variable must hold the last element the script
+// computes. Scripts that bind a name to a bare operand create a second operand object for an
+// existing element and may be refused with an identifier conflict: left to the correspondence.
+func CheckSalloc(c, res string) string {
+	if strings.HasPrefix(res, "panic") {
+		return "pipeline panicked: " + res
+	}
+	f := strings.Split(c, " ")
+	src := string(lib.ParseBytes(f[1]))
+	cfg := decCfg(f[2])
+	ch, err := parse.String(src)
+	if err != nil {
+		return ""
+	}
+	vals, ops, reject := acclib.Interp(ch)
+	if reject != "" || len(ops) == 0 {
+		return ""
+	}
+	for _, st := range ch.Statements {
+		if st.Name != "" && bareOperand(st.Expr) {
+			return ""
+		}
+	}
+	if !strings.HasPrefix(res, "ok ") {
+		return "script without bare-operand bindings was not allocated: " + res
+	}
+	g := strings.Split(res, " ")
+	q := Decode(g[1])
+	p := Strip(q)
+	if !WellFormed(p) {
+		return "" // an index operand refers to an element no instruction outputs (inside a shift)
+	}
+	want := vals[len(vals)-1]
+	if got := ChainValues(p, big.NewInt(1))[p[len(p)-1].Out.Idx]; got.Cmp(want) != 0 {
+		return "translated program does not end in the last element the script computes"
+	}
+	if m := CheckAllocation(AllocCase(p, cfg), "ok "+g[1]+" "+g[2], true); m != "" {
+		return m
+	}
+	distinct := cfg.In != "" && cfg.Out != "" && cfg.In != cfg.Out
+	for _, t := range decNames(g[2]) {
+		if t == cfg.In || t == cfg.Out {
+			distinct = false
+		}
+	}
+	if distinct && (g[3] != lib.Hex(want) || g[4] != lib.Hex(want)) {
+		return fmt.Sprintf("interpreter: %s / %s, last element of the script %s", g[3], g[4], lib.Hex(want))
+	}
+	return ""
+}
+
+// AliasScripts are hand-written scripts around names bound to already named values.
+var AliasScripts = []string{
+	"a = 2*1\nb = a\nreturn b + 1\n",
+	"a = 2*1\nb = a\nreturn a + b\n",
+	"a = 2*1\nb = a\nc = b\nreturn c + a\n",
+	"a = 2*1\nb = a\nc = a\nreturn b + c\n",
+	"a = 1 + 1\nb = a\nc = 2*b\nd = c\nreturn d + a\n",
+	"a = 2*1\nb = a\nreturn a + 1\n",
+	"a = 2*1\nb = a\nc = b + 1\nreturn 2*c\n",
+	"a = 2*1\nb = a << 0\nreturn b + 1\n",
+	"a = 2*1\nb = (a << 0) << 0\nreturn b + a\n",
+	"a = 1 << 3\nb = a\nreturn b + 1\n",
+	"a = 2*1\nb = a\nreturn b << 2\n",
+	"a = 2*1\nb = a\nreturn b\n",
+	"x = 2*1\nz = x\nt0 = z + 1\nreturn t0 + x\n",
+	"in = 1 + 1\nout = in\nreturn out + in\n",
+	"a = 2*1\nb = 2*a\nc = a\nd = b\nreturn (c + d) + (a + b)\n",
+	"a = 2*1\nb = a + a\nreturn (b + a) + (a + b)\n",
+	"a = 2*1\ndead = a + 1\nb = a\nreturn b + b\n",
+	"a = 2*1\nb = a\nreturn [1] + b\n",
+	"a = 1 + 1\nb = a + [1]\nc = b\nreturn c + [2]\n",
+	"a = 2*1\nb = a\nc = [1]\nreturn c + b\n",
+	// bindings of bare operands: a second operand object for an existing element (correspondence decides)
+	"a = 1\nb = 1\nreturn a + b\n",
+	"a = 1\nreturn a + a\n",
+	"a = 1\nb = a\nreturn b + 1\n",
+	"a = 2*1\nb = [1]\nreturn a + b\n",
+	"a = 1 << 0\nb = 1 << 0\nreturn a + b\n",
+	"a = 2*1\nb = [0]\nc = b\nreturn c + a\n",
+	// errors
+	"a = 2*1\na = a\nreturn a\n",
+	"b = a\nreturn b\n",
+	"return 1\n",
+	"a = 2*1\nb = a\nreturn\n",
+}
+
+// RandomAliasScript: statements that compute, interleaved with aliases of earlier names, alias
+// chains, aliases of a shift by zero, dead statements, names re-used in nested expressions.
+func RandomAliasScript(r *lib.Rand, nstmt int) string {
+	var b strings.Builder
+	var names []string
+	pick := func() string {
+		if len(names) == 0 || r.Chance(1, 6) {
+			return "1"
+		}
+		if r.Bool() {
+			return names[len(names)-1]
+		}
+		return names[r.Intn(len(names))]
+	}
+	pool := []string{"a", "b", "c", "x", "z", "t0", "t1", "in", "out", "_1", "v"}
+	n := 1
+	for k := 0; k < nstmt; k++ {
+		var e string
+		switch {
+		case len(names) > 0 && r.Chance(2, 5):
+			e = names[r.Intn(len(names))] // alias
+			if r.Chance(1, 4) {
+				e = "(" + e + " << 0)"
+			}
+		default:
+			switch r.Intn(5) {
+			case 0:
+				e = "2*" + pick()
+				n++
+			case 1:
+				s := r.Range(1, 5)
+				e = fmt.Sprintf("%s << %d", pick(), s)
+				n += s
+			case 2:
+				e = fmt.Sprintf("(%s + %s) + %s", pick(), pick(), pick())
+				n += 2
+			case 3:
+				if r.Chance(1, 3) {
+					e = fmt.Sprintf("%s + [%d]", pick(), r.Intn(n))
+				} else {
+					e = pick() + " + " + pick()
+				}
+				n++
+			default:
+				e = fmt.Sprintf("2*(%s + %s)", pick(), pick())
+				n += 2
+			}
+		}
+		if k == nstmt-1 {
+			if r.Chance(1, 3) {
+				e = pick() + " + " + e
+			}
+			fmt.Fprintf(&b, "return %s\n", e)
+		} else {
+			nm := fmt.Sprintf("%s%d", pool[r.Intn(len(pool))], k)
+			fmt.Fprintf(&b, "%s = %s\n", nm, e)
+			names = append(names, nm)
+		}
+	}
+	return b.String()
 }
 
 // Histories are the operation sequences of the history stream.
